@@ -801,4 +801,27 @@ theorem C15_chunksOrdered_examples :
                      (runLive (f35Env .patched) f35Algo f35Run).hist.drop 2] = false := by
   decide
 
+/-! ### NSGA2: elites and population -/
+
+def popComponent : Except Err St → Option (List Item)
+  | .ok (.evolution _ _ _ _ _ pop _) => some pop
+  | _ => none
+
+/-- NSGA2 (`pg.evolution.nsga2`, Random initialiser of any size, ANY mutator): the model's population
+component encodes `(global_state.elites, population)` (PgModel/Nsga2.lean), the population update is
+`Nsga2.update` — non-dominated sorting, crowding distance, first `n`, stored as elites, population
+emptied — and for every run, at every crash point, with any feedback order, the recovered instance has
+the elites and the unprocessed population of the uninterrupted one.  (Instance of
+`C15_recover_evolution`, which holds for any update function; that `Nsga2.update` is what nsga2.py
+computes is tied by correspondence at every crash point and by the translator's pipeline facts.) -/
+theorem C15_recover_nsga2 (env : Env) (hq : env.q = Quirks.patched) (seed : Nat) (sd : Bool) (sz : Option Nat)
+    (facts : Nsga2.Facts) (n : Nat) (_hu : env.update = Nsga2.update facts n) (run : List Event) :
+    ∃ enc, popComponent (.ok (runLive env (.evolution (.random seed sd) sz) run).st) = some enc
+      ∧ popComponent (recover env (.evolution (.random seed sd) sz) (setup (.evolution (.random seed sd) sz))
+          (runLive env (.evolution (.random seed sd) sz) run).hist) = some enc
+      ∧ ∃ elites pop, Nsga2.decode enc = (elites, pop) := by
+  obtain ⟨np, nf, pop, si, ini, g, pend, si', ini', g', pend', h1, h2⟩ :=
+    C15_recover_evolution env hq (.random seed sd) (Or.inr ⟨seed, sd, rfl⟩) sz run
+  exact ⟨pop, by rw [h1]; rfl, by rw [h2]; rfl, _, _, rfl⟩
+
 end Pg.C15
